@@ -12,8 +12,9 @@ import (
 type nsClass struct {
 	Name    string   `json:"name"`
 	Parent  string   `json:"parent,omitempty"` // short name of a class of the group
-	Methods []string `json:"methods"`          // "name:ret-literal"
+	Methods []string `json:"methods"`          // "name:body expression"
 	Static  []string `json:"static,omitempty"`
+	Inner   *nsClass `json:"inner,omitempty"` // a class nested in this one (its parent is a class of the group)
 }
 
 type nsCase struct {
@@ -32,12 +33,19 @@ func (n *nsCase) render(wrap bool, decoy bool) (src string, groupLines int) {
 		case "toplevel":
 			// only meaningful when the group is wrapped
 			if wrap {
-				fmt.Fprintf(&sb, "class %s\n  def zzdecoy\n    1.5\n  end\nend\n", n.Classes[0].Name)
+				for _, cl := range n.Classes {
+					fmt.Fprintf(&sb, "class %s\n  def zzdecoy\n    1.5\n  end\n", cl.Name)
+					for _, m := range cl.Methods {
+						fmt.Fprintf(&sb, "  def %s\n    \"zzdecoy\"\n  end\n", strings.SplitN(m, ":", 2)[0])
+					}
+					sb.WriteString("end\n")
+				}
 			}
 		case "other-module":
 			fmt.Fprintf(&sb, "module Zzother\n  class %s < String\n    def zzdecoy\n      1.5\n    end\n  end\nend\n", n.Classes[len(n.Classes)-1].Name)
 		}
 	}
+	groupLines = strings.Count(sb.String(), "\n") // rows of the decoy in front of the group
 	ind := ""
 	if wrap {
 		for i, m := range n.Modules {
@@ -59,6 +67,18 @@ func (n *nsCase) render(wrap bool, decoy bool) (src string, groupLines int) {
 			p := strings.SplitN(m, ":", 2)
 			fmt.Fprintf(&sb, "%s  def self.%s\n%s    %s\n%s  end\n", ind, p[0], ind, p[1], ind)
 		}
+		if in := cl.Inner; in != nil {
+			head := "class " + in.Name
+			if in.Parent != "" {
+				head += " < " + in.Parent
+			}
+			fmt.Fprintf(&sb, "%s  %s\n", ind, head)
+			for _, m := range in.Methods {
+				p := strings.SplitN(m, ":", 2)
+				fmt.Fprintf(&sb, "%s    def %s\n%s      %s\n%s    end\n", ind, p[0], ind, p[1], ind)
+			}
+			fmt.Fprintf(&sb, "%s  end\n", ind)
+		}
 		fmt.Fprintf(&sb, "%send\n", ind)
 	}
 	if wrap {
@@ -77,18 +97,21 @@ func (n *nsCase) render(wrap bool, decoy bool) (src string, groupLines int) {
 		}
 		sb.WriteString(line + "\n")
 	}
-	return sb.String(), 0
+	return sb.String(), groupLines
 }
 
 // normalise removes namespace qualifiers of the group and rebases rows onto
 // "use statement index" so that renderings with different preambles compare.
-func (n *nsCase) normalise(out string, src string) []string {
+func (n *nsCase) normalise(out string, src string, decoyRows int) []string {
 	lines := strings.Split(src, "\n")
 	// first use line = total - len(uses) - 1 (trailing empty)
 	firstUse := len(lines) - 1 - len(n.Uses)
 	q := strings.Join(n.Modules, "::") + "::"
 	var res []string
 	for _, r := range parseOut(out) {
+		if r.Row > 0 && r.Row <= decoyRows {
+			continue // the decoy's own records
+		}
 		msg := strings.ReplaceAll(r.Msg, q, "")
 		for i := range n.Modules {
 			msg = strings.ReplaceAll(msg, strings.Join(n.Modules[i:], "::")+"::", "")
@@ -139,19 +162,19 @@ func judgeNs(c *CheckCtx, rn Runner, n *nsCase) *Violation {
 		c.Event("skipped_crash_or_hang", 1)
 		return nil
 	}
-	want := n.normalise(bo, bsrc)
+	want := n.normalise(bo, bsrc, 0)
 	if len(want) > 0 {
 		c.Event("groups_with_output", 1)
 		c.Nontrivial(strings.Join(n.Mode, " ") + "\x00" + bsrc + "\x00" + n.Decoy + strings.Join(n.Modules, "::"))
 	}
 	for _, v := range others {
-		src, _ := n.render(v.wrap, v.decoy)
+		src, decoyRows := n.render(v.wrap, v.decoy)
 		o, ok := relRun(c, rn, &Exec{Files: map[string]string{targetFile: src}, Argv: argv})
 		if !ok {
 			c.Event("skipped_crash_or_hang", 1)
 			continue
 		}
-		got := n.normalise(o, src)
+		got := n.normalise(o, src, decoyRows)
 		// the decoy's own rows are not part of the group's output
 		if v.decoy {
 			got = filterDecoy(got)
@@ -258,6 +281,20 @@ func genNsCase(r *RNG) *nsCase {
 			cl.Static = append(cl.Static, fmt.Sprintf("s%d:%s", i, Pick(r, rets)))
 			feature = append(feature, "static")
 		}
+		// a method whose body names a sibling class of the group by its short name
+		if i > 0 && r.Chance(1, 2) {
+			sib := pool[r.Intn(i)]
+			cl.Methods = append(cl.Methods, fmt.Sprintf("friend%d:%s.new", i, sib))
+			if r.Bool() {
+				cl.Static = append(cl.Static, fmt.Sprintf("make%d:%s.new", i, Pick(r, []string{sib, cl.Name})))
+			}
+			feature = append(feature, "sibling-reference")
+		}
+		// a class nested in this class that inherits from a sibling of the group
+		if i > 0 && r.Chance(1, 3) {
+			cl.Inner = &nsClass{Name: "Inner" + cl.Name, Parent: pool[r.Intn(i)], Methods: []string{fmt.Sprintf("im%d:%s", i, Pick(r, rets))}}
+			feature = append(feature, "nested-class")
+		}
 		n.Classes = append(n.Classes, cl)
 	}
 	// uses: instances, calls of own and inherited methods, one undefined call
@@ -284,6 +321,33 @@ func genNsCase(r *RNG) *nsCase {
 		}
 		for _, m := range cl.Static {
 			n.Uses = append(n.Uses, fmt.Sprintf("dbtp {{%s}}.%s", cl.Name, strings.SplitN(m, ":", 2)[0]))
+		}
+		// what a sibling reference returns must be the group's class: call its first method
+		for _, m := range append(append([]string{}, cl.Methods...), cl.Static...) {
+			p := strings.SplitN(m, ":", 2)
+			if !strings.HasSuffix(p[1], ".new") {
+				continue
+			}
+			target := strings.TrimSuffix(p[1], ".new")
+			for k := range n.Classes {
+				if n.Classes[k].Name == target && len(n.Classes[k].Methods) > 0 {
+					recv := v
+					if strings.HasPrefix(p[0], "make") {
+						recv = "{{" + cl.Name + "}}"
+					}
+					n.Uses = append(n.Uses, fmt.Sprintf("dbtp %s.%s.%s", recv, p[0], strings.SplitN(n.Classes[k].Methods[0], ":", 2)[0]))
+				}
+			}
+		}
+		if in := cl.Inner; in != nil {
+			iv := fmt.Sprintf("iv%d", i)
+			n.Uses = append(n.Uses, fmt.Sprintf("%s = {{%s}}::%s.new", iv, cl.Name, in.Name))
+			n.Uses = append(n.Uses, fmt.Sprintf("dbtp %s.%s", iv, strings.SplitN(in.Methods[0], ":", 2)[0]))
+			for k := range n.Classes {
+				if n.Classes[k].Name == in.Parent && len(n.Classes[k].Methods) > 0 {
+					n.Uses = append(n.Uses, fmt.Sprintf("dbtp %s.%s", iv, strings.SplitN(n.Classes[k].Methods[0], ":", 2)[0]))
+				}
+			}
 		}
 		n.Uses = append(n.Uses, v+".zznothing")
 	}
